@@ -39,6 +39,9 @@ func Apply(src string, edits []Edit) string {
 	return src
 }
 
+var basicTypeNames = map[string]bool{"int": true, "int8": true, "int16": true, "int32": true, "int64": true, "uint": true, "uint8": true, "uint16": true, "uint32": true, "uint64": true,
+	"byte": true, "rune": true, "float32": true, "float64": true, "string": true, "bool": true, "error": true}
+
 // Helpers appended once to a mutated package (unique names; never mention predeclared identifiers
 // other than `any`-free forms, because some example packages redeclare them).
 const PairHelpers = `
@@ -237,6 +240,28 @@ func Mutants(filename, src string, ops map[string]bool) []Mutant {
 			if len(n.List) > 0 {
 				add("emptyBlock", n.Pos(), "", Edit{off(n.Lbrace) + 1, off(n.Rbrace), ""})
 			}
+			if want("insertBetween") {
+				// an unrelated marker statement between every two adjacent statements
+				for i := 0; i+1 < len(n.List); i++ {
+					out = append(out, Mutant{Op: "insertBetween", Site: site(n.List[i].End()), Helper: "sibling", HelperSrc: "func vmBetween() {}\n",
+						Edits: []Edit{{off(n.List[i].End()), off(n.List[i].End()), "; vmBetween()"}}})
+				}
+			}
+		case *ast.Ident:
+			if want("retype") && basicTypeNames[n.Name] {
+				// the same code over a defined type and over an alias of a defined type
+				out = append(out, Mutant{Op: "retype", Site: site(n.Pos()), Helper: "sibling", HelperSrc: "type vmDefT " + n.Name + "\n",
+					Edits: []Edit{{off(n.Pos()), off(n.End()), "vmDefT"}}})
+				out = append(out, Mutant{Op: "retype", Site: site(n.Pos()), Helper: "sibling", HelperSrc: "type vmDefT " + n.Name + "\ntype vmAliT = vmDefT\n",
+					Edits: []Edit{{off(n.Pos()), off(n.End()), "vmAliT"}}})
+			}
+		case *ast.MapType:
+			parenType(n.Key)
+			parenType(n.Value)
+			if want("retype") {
+				out = append(out, Mutant{Op: "retype", Site: site(n.Pos()), Helper: "sibling", HelperSrc: "type vmDefT " + text(n) + "\n",
+					Edits: []Edit{{off(n.Pos()), off(n.End()), "vmDefT"}}})
+			}
 		case *ast.ForStmt:
 			if n.Cond != nil {
 				add("dropForCond", n.Pos(), "", Edit{off(n.Cond.Pos()), off(n.Cond.End()), ""})
@@ -277,9 +302,10 @@ func Mutants(filename, src string, ops map[string]bool) []Mutant {
 			parenType(n.Type)
 		case *ast.ArrayType:
 			parenType(n.Elt)
-		case *ast.MapType:
-			parenType(n.Key)
-			parenType(n.Value)
+			if want("retype") && n.Len == nil {
+				out = append(out, Mutant{Op: "retype", Site: site(n.Pos()), Helper: "sibling", HelperSrc: "type vmDefT " + text(n) + "\n",
+					Edits: []Edit{{off(n.Pos()), off(n.End()), "vmDefT"}}})
+			}
 		case *ast.ParenExpr:
 			// one more pair of parentheses around an already parenthesised expression or type
 			add("doubleParen", n.Pos(), "", Edit{off(n.Pos()), off(n.End()), "(" + text(n) + ")"})
